@@ -7,6 +7,7 @@ import (
 	"go/ast"
 	"go/token"
 	"go/types"
+	"reflect"
 	"sort"
 	"strings"
 
@@ -31,6 +32,8 @@ func checkC13(r *Run) propMeta {
 		r.Fatal("load: %v", err)
 	}
 	p := r.MustPkg("cardinality")
+	assertionHelperType = pureAssertionHelper(FuncDecls(p), p.Types)
+	defer func() { assertionHelperType = nil }()
 	sibs := []string{"bitmap32", "bitmap64"}
 	shapes := map[string]map[string]string{}
 	for _, tname := range sibs {
@@ -133,6 +136,78 @@ func checkBitmapType(r *Run, p *packages.Package, tname string) map[string]strin
 			return true
 		})
 	}
+	// iterating methods: methods that hand the receiver's values to a function parameter, one call per value — the
+	// parameter is called inside a loop, or handed on to another iterating method of the same receiver
+	iterating := map[string]bool{}
+	for changed := true; changed; {
+		changed = false
+		for name, fd := range methods {
+			if iterating[name] || fd.Type.Params == nil {
+				continue
+			}
+			var fparams []types.Object
+			for _, pl := range fd.Type.Params.List {
+				for _, nm := range pl.Names {
+					if o := info.Defs[nm]; o != nil {
+						if _, isFunc := o.Type().Underlying().(*types.Signature); isFunc {
+							fparams = append(fparams, o)
+						}
+					}
+				}
+			}
+			if len(fparams) == 0 {
+				continue
+			}
+			isParam := func(e ast.Expr) bool {
+				id, ok := ast.Unparen(e).(*ast.Ident)
+				if !ok {
+					return false
+				}
+				for _, o := range fparams {
+					if info.Uses[id] == o {
+						return true
+					}
+				}
+				return false
+			}
+			orecv := recvObj(p, fd)
+			var visit func(n ast.Node, inLoop bool)
+			visit = func(n ast.Node, inLoop bool) {
+				ast.Inspect(n, func(m ast.Node) bool {
+					switch x := m.(type) {
+					case *ast.ForStmt:
+						if m != n {
+							visit(x.Body, true)
+							return false
+						}
+					case *ast.RangeStmt:
+						if m != n {
+							visit(x.Body, true)
+							return false
+						}
+					case *ast.CallExpr:
+						if inLoop && isParam(x.Fun) {
+							iterating[name] = true
+						}
+						if sel, ok := x.Fun.(*ast.SelectorExpr); ok && iterating[sel.Sel.Name] {
+							if id, ok := ast.Unparen(sel.X).(*ast.Ident); ok && info.Uses[id] == orecv {
+								for _, a := range x.Args {
+									if isParam(a) {
+										iterating[name] = true
+									}
+								}
+							}
+						}
+					}
+					return true
+				})
+			}
+			visit(fd.Body, false)
+			if iterating[name] {
+				changed = true
+			}
+		}
+	}
 	shapes := map[string]string{}
 	for _, name := range sortedKeys(methods) {
 		fd := methods[name]
@@ -153,22 +228,45 @@ func checkBitmapType(r *Run, p *packages.Package, tname string) map[string]strin
 				case *ast.CallExpr:
 					if sel, ok := x.Fun.(*ast.SelectorExpr); ok {
 						if id, ok := ast.Unparen(sel.X).(*ast.Ident); ok && info.Uses[id] == orecv {
-							if sel.Sel.Name == "Each" {
+							if sel.Sel.Name == "Each" || iterating[sel.Sel.Name] {
 								for _, a := range x.Args {
 									if fl, ok := a.(*ast.FuncLit); ok {
 										selfIterBodies = append(selfIterBodies, selfIter{fl.Body, owner})
 									}
 								}
-							} else if hd := methods[sel.Sel.Name]; hd != nil && hd != owner && !ast.IsExported(sel.Sel.Name) && depth < 2 {
+							}
+							if hd := methods[sel.Sel.Name]; hd != nil && hd != owner && !ast.IsExported(sel.Sel.Name) && depth < 2 {
 								collect(hd, depth+1)
 							}
 						}
 					}
 				case *ast.ForStmt:
 					// for itr := s.bitmap.Iterator(); itr.HasNext(); { ... }
+					matched := false
 					if as, ok := x.Init.(*ast.AssignStmt); ok && len(as.Rhs) == 1 {
 						if call, ok := as.Rhs[0].(*ast.CallExpr); ok {
 							if sel, ok := call.Fun.(*ast.SelectorExpr); ok && strings.Contains(sel.Sel.Name, "Iterator") && onOwnBitmap(owner, sel.X) {
+								selfIterBodies = append(selfIterBodies, selfIter{x.Body, owner})
+								matched = true
+							}
+						}
+					}
+					// the iterator is a local declared before the loop that drives it
+					if !matched {
+						for obj := range ownIteratorLocals(info, owner, onOwnBitmap) {
+							uses := false
+							for _, part := range []ast.Node{x.Init, x.Cond, x.Post} {
+								if part == nil || reflect.ValueOf(part).IsNil() {
+									continue
+								}
+								ast.Inspect(part, func(m ast.Node) bool {
+									if id, ok := m.(*ast.Ident); ok && info.Uses[id] == obj {
+										uses = true
+									}
+									return true
+								})
+							}
+							if uses {
 								selfIterBodies = append(selfIterBodies, selfIter{x.Body, owner})
 							}
 						}
@@ -523,6 +621,46 @@ func fallbackKind(p *packages.Package, methods map[string]*ast.FuncDecl, br type
 								}
 							}
 						}
+						// own.AndNot(recv.selectValues(pred)): a helper method of the receiver that returns, as a fresh bitmap, the
+						// receiver's values a predicate selects, handed to the native AndNot (drop the selected) or And (keep them)
+						if (sel.Sel.Name == "AndNot" || sel.Sel.Name == "And") && len(x.Args) == 1 {
+							if root := rootIdent(sel.X); root != nil && info.Uses[root] == recv {
+								if inner, ok := ast.Unparen(x.Args[0]).(*ast.CallExpr); ok && len(inner.Args) == 1 {
+									if isel, ok := ast.Unparen(inner.Fun).(*ast.SelectorExpr); ok {
+										if iid, ok := ast.Unparen(isel.X).(*ast.Ident); ok && info.Uses[iid] == recv {
+											if hd := methods[isel.Sel.Name]; hd != nil && selectsWherePredicate(p, hd) {
+												m := 0
+												switch a := ast.Unparen(inner.Args[0]).(type) {
+												case *ast.SelectorExpr:
+													if aid, ok := ast.Unparen(a.X).(*ast.Ident); ok && info.Uses[aid] == operand && a.Sel.Name == "Contains" {
+														m = 1
+													}
+												case *ast.FuncLit:
+													if len(a.Body.List) == 1 {
+														if rs, ok := a.Body.List[0].(*ast.ReturnStmt); ok && len(rs.Results) == 1 {
+															m = membership(rs.Results[0])
+														}
+													}
+												}
+												if sel.Sel.Name == "And" {
+													m = -m
+												}
+												if m != 0 {
+													if m < 0 {
+														polarity = append(polarity, "remove-if-not-contained")
+													} else {
+														polarity = append(polarity, "remove-if-contained")
+													}
+													if top {
+														pos = x.Pos()
+													}
+												}
+											}
+										}
+									}
+								}
+							}
+						}
 						// a helper method called on the receiver with the operand among its arguments
 						if id, ok := ast.Unparen(sel.X).(*ast.Ident); ok && info.Uses[id] == recv && depth < 2 {
 							if hd := methods[sel.Sel.Name]; hd != nil && hd.Body != nil && hd.Type.Params != nil && calleeOf(info, x) != nil && calleeOf(info, x).Pkg() == p.Types {
@@ -654,6 +792,7 @@ func checkWrapper(r *Run, p *packages.Package, tname, ifaceName, ctorName string
 		// is judged by that method's body: its parameters stand for the arguments, a parameter bound to a method expression
 		// stands for that method
 		view := fd
+		wrappedByCaller := false
 		aliasOf := map[types.Object]types.Object{}
 		methodValue := map[types.Object]string{}
 		alias := func(o types.Object) types.Object {
@@ -670,6 +809,21 @@ func checkWrapper(r *Run, p *packages.Package, tname, ifaceName, ctorName string
 			case *ast.ReturnStmt:
 				if len(st.Results) == 1 {
 					sole, _ = ast.Unparen(st.Results[0]).(*ast.CallExpr)
+				}
+			}
+			// `return Ctor(s.snapshot())`: the wrapping happens here, the locked delegation in the private method
+			if sole != nil {
+				if id, ok := sole.Fun.(*ast.Ident); ok && id.Name == ctorName && len(sole.Args) == 1 {
+					if c2, ok := ast.Unparen(sole.Args[0]).(*ast.CallExpr); ok && len(c2.Args) == 0 {
+						if sel, ok := c2.Fun.(*ast.SelectorExpr); ok {
+							if rid, ok := ast.Unparen(sel.X).(*ast.Ident); ok && info.Uses[rid] == recvObj(p, fd) {
+								if hd := methods[sel.Sel.Name]; hd != nil && hd.Body != nil && !ast.IsExported(sel.Sel.Name) {
+									sole = c2
+									wrappedByCaller = true
+								}
+							}
+						}
+					}
 				}
 			}
 			if sole != nil {
@@ -768,7 +922,7 @@ func checkWrapper(r *Run, p *packages.Package, tname, ifaceName, ctorName string
 				}
 			} else if why == "" {
 				inner := call
-				wrapped := false
+				wrapped := wrappedByCaller
 				// Clone: Ctor(s.provider.Clone())
 				if id, ok := call.Fun.(*ast.Ident); ok && id.Name == ctorName && len(call.Args) == 1 {
 					if c2, ok := ast.Unparen(call.Args[0]).(*ast.CallExpr); ok {
@@ -864,6 +1018,10 @@ func checkWrapper(r *Run, p *packages.Package, tname, ifaceName, ctorName string
 							if bn := namedOf(info.TypeOf(id)); bn != nil && bn.Obj().Pkg() == p.Types && bn.Obj().Name() != tname && strings.HasPrefix(bn.Obj().Name(), "threadSafe") {
 								return true
 							}
+						}
+						if fd.Recv != nil && recvTypeName(fd.Recv.List[0].Type) == tname && !ast.IsExported(fd.Name.Name) && lockedOnSameBase(info, fd, sel, lock) {
+							r.Pass("C13-R3-wrapper", tname+"."+provider.Name()+"@"+funcDeclName(fd), sel.Pos(), "a private method of the wrapper reads the wrapped provider under the wrapper's lock")
+							return true
 						}
 						if fd.Recv == nil && lockedOnSameBase(info, fd, sel, lock) {
 							r.Pass("C13-R3-wrapper", tname+"."+provider.Name()+"@"+funcDeclName(fd), sel.Pos(), "a helper reads the wrapped provider of another wrapper under that wrapper's lock")
@@ -1137,4 +1295,120 @@ func removesWherePredicate(p *packages.Package, hd *ast.FuncDecl) bool {
 		return true
 	})
 	return asksEach && removes && !adds
+}
+
+// selectsWherePredicate: hd(pred) iterates the receiver's own values, asks pred about each, adds the values for which it
+// holds to a bitmap it made itself, returns that bitmap, and neither adds to nor removes from the receiver's bitmap.
+func selectsWherePredicate(p *packages.Package, hd *ast.FuncDecl) bool {
+	info := p.TypesInfo
+	if hd.Body == nil || hd.Type.Params == nil || len(hd.Type.Params.List) != 1 || len(hd.Type.Params.List[0].Names) != 1 {
+		return false
+	}
+	pred := info.Defs[hd.Type.Params.List[0].Names[0]]
+	if _, isFunc := pred.Type().Underlying().(*types.Signature); !isFunc {
+		return false
+	}
+	recv := recvObj(p, hd)
+	// the returned local
+	var result types.Object
+	for _, st := range hd.Body.List {
+		if rs, ok := st.(*ast.ReturnStmt); ok && len(rs.Results) == 1 {
+			if id, ok := ast.Unparen(rs.Results[0]).(*ast.Ident); ok {
+				result = info.Uses[id]
+			}
+		}
+	}
+	if result == nil || result == recv {
+		return false
+	}
+	positive, touchesOwn, other := false, false, false
+	ast.Inspect(hd.Body, func(n ast.Node) bool {
+		switch x := n.(type) {
+		case *ast.IfStmt:
+			c, ok := ast.Unparen(x.Cond).(*ast.CallExpr)
+			if !ok {
+				return true
+			}
+			if id, ok := ast.Unparen(c.Fun).(*ast.Ident); !ok || info.Uses[id] != pred {
+				return true
+			}
+			// body: result.Add(v) only
+			for _, st := range x.Body.List {
+				es, ok := st.(*ast.ExprStmt)
+				if !ok {
+					other = true
+					continue
+				}
+				call, ok := es.X.(*ast.CallExpr)
+				if !ok {
+					other = true
+					continue
+				}
+				sel, ok := call.Fun.(*ast.SelectorExpr)
+				if !ok || (sel.Sel.Name != "Add" && sel.Sel.Name != "CheckedAdd") {
+					other = true
+					continue
+				}
+				if id, ok := ast.Unparen(sel.X).(*ast.Ident); ok && info.Uses[id] == result {
+					positive = true
+				} else {
+					other = true
+				}
+			}
+			if x.Else != nil {
+				other = true
+			}
+		case *ast.CallExpr:
+			if sel, ok := x.Fun.(*ast.SelectorExpr); ok {
+				if root := rootIdent(sel.X); root != nil && info.Uses[root] == recv {
+					switch sel.Sel.Name {
+					case "Remove", "RemoveRange", "AndNot", "CheckedRemove", "Add", "AddMany", "AddRange", "Or", "CheckedAdd", "And", "Xor", "Clear":
+						touchesOwn = true
+					}
+				}
+				// the result is filled nowhere else
+				if id, ok := ast.Unparen(sel.X).(*ast.Ident); ok && info.Uses[id] == result {
+					switch sel.Sel.Name {
+					case "Remove", "AndNot", "Or", "And", "Xor", "AddMany", "AddRange":
+						other = true
+					}
+				}
+			}
+		}
+		return true
+	})
+	return positive && !touchesOwn && !other
+}
+
+// ownIteratorLocals: locals of fd initialised from an iterator over the receiver's own bitmap.
+func ownIteratorLocals(info *types.Info, fd *ast.FuncDecl, onOwnBitmap func(fd *ast.FuncDecl, e ast.Expr) bool) map[types.Object]bool {
+	out := map[types.Object]bool{}
+	isIter := func(e ast.Expr) bool {
+		call, ok := ast.Unparen(e).(*ast.CallExpr)
+		if !ok {
+			return false
+		}
+		sel, ok := call.Fun.(*ast.SelectorExpr)
+		return ok && strings.Contains(sel.Sel.Name, "Iterator") && onOwnBitmap(fd, sel.X)
+	}
+	ast.Inspect(fd.Body, func(n ast.Node) bool {
+		switch x := n.(type) {
+		case *ast.ValueSpec:
+			for i, nm := range x.Names {
+				if i < len(x.Values) && isIter(x.Values[i]) {
+					out[info.Defs[nm]] = true
+				}
+			}
+		case *ast.AssignStmt:
+			if len(x.Lhs) == len(x.Rhs) {
+				for i, l := range x.Lhs {
+					if id, ok := l.(*ast.Ident); ok && isIter(x.Rhs[i]) {
+						out[info.ObjectOf(id)] = true
+					}
+				}
+			}
+		}
+		return true
+	})
+	return out
 }
